@@ -160,4 +160,15 @@ int64_t live_allocations();
 // helpers
 std::string hex(const void *p, size_t n, size_t max = 64);
 
+// ---- allocation-failure injection (library allocations only: engine/vp_alloc.h is force-included into the library sources)
+// alloc_fail_after(k): the k-th malloc/calloc/realloc call made by library code from now on returns NULL, once (k <= 0: off);
+// alloc_calls(): library allocation calls since the last alloc_fail_after(); alloc_failures(): injected failures in this case.
+// Typical use: run an operation once on a twin object counting its allocations (alloc_fail_after(0) ... alloc_calls()), then run
+// it on the object under test with a drawn k in 1..n, and require what the property requires of a refused/failed operation.
+void alloc_fail_after(long k);
+long alloc_calls();
+long alloc_failures();
+bool alloc_armed();
+void alloc_reset();
+
 }  // namespace vp
